@@ -5,6 +5,7 @@ PUB = "src/mqtt/client/publisher.py"
 SUB = "src/mqtt/client/subscriber.py"
 FAC = "src/mqtt/client/factory.py"
 PDU = "src/mqtt/pdu.py"
+IV = "src/mqtt/client/interval.py"
 
 VARIANTS = []
 
@@ -247,6 +248,9 @@ B("the PUBLISH itself is parked in the release window", ["C09"],
 B("PUBREL sent from publish()", ["C09"],
   [(PS, "        self.factory.queuePublishTx[self.addr].append(request)\n", "        self.factory.queuePublishTx[self.addr].append(request)\n        rel = PUBREL()\n        rel.msgId = 1\n        self.transport.write(rel.encode())\n")], {"C09": ["Q-WHO"]})
 
+B("IntervalLinear multiplier divided instead of multiplied", ["C08"], [(IV, "        self._k    *= self.factor", "        self._k    //= self.factor")], {"C08": ["R-GAP"]})
+N("IntervalLinear multiplier written out", ["C08"], [(IV, "        self._k    *= self.factor", "        self._k     = self._k * self.factor")])
+N("Interval (not used for PUBLISH) counting down to its initial value", ["C08"], [(IV, "        self._value = min(self._value, self.maxDelay)\n", "        self._value = min(self._value, self.maxDelay)\n        self._value = max(self.initial, self._value - 0)\n")])
 # ---------------------------------------------------------------- C10
 B("popleft -> pop", ["C10"], [(PS, "            request = self.factory.queuePublishTx[cnx].popleft()", "            request = self.factory.queuePublishTx[cnx].pop()")], {"C10": ["W-FIFO"]})
 B("refill guard <=", ["C10"], [(PS, "len(self.factory.windowPublish[cnx]) < self._window:", "len(self.factory.windowPublish[cnx]) <= self._window:")], {"C10": ["W-BOUND"]})
@@ -544,7 +548,6 @@ B("payload extended after the length was taken", ["C02"],
   [(PDU, "        header.extend(encodeLength(totalLen))\n        header.extend(varHeader)", "        payload.append(0)\n        header.extend(encodeLength(totalLen))\n        header.extend(varHeader)")], {"C02": ["S2"]})
 
 # ---------------------------------------------------------------- C08 interval lower bound
-IV = "src/mqtt/client/interval.py"
 B("Interval jitter subtracted", ["C08"], [(IV, "        self._value = min(self._value, self.maxDelay)\n        return self._value + random.random()", "        self._value = min(self._value, self.maxDelay)\n        return self._value - random.random()")], {"C08": ["R-GAP"]})
 B("Interval default factor 0.5", ["C08"], [(IV, "    def __init__(self, initial=2, maxDelay=1024, factor=2):", "    def __init__(self, initial=2, maxDelay=1024, factor=0.5):")], {"C08": ["R-GAP"]})
 B("Interval maxDelay may undercut initial", ["C08"], [(IV, "        self.maxDelay = max(initial, maxDelay)", "        self.maxDelay = maxDelay")], {"C08": ["R-GAP"]})
